@@ -2,6 +2,7 @@ package main
 
 import (
 	"go/ast"
+	"go/constant"
 	"strings"
 
 	"golang.org/x/tools/go/packages"
@@ -199,7 +200,50 @@ func targets() []*target {
 				"(f_argsToAttrs : list attr -> list attr -> list attr)", "(g_flags : Z)", "(s_ctxKeysWanted : bool)", "(s : list (list attr))", "(s_attrs : list attr)",
 				"(ctx : unit)", "(kvps : list attr)", "(roughSize : Z)", "(lvl : Z)", "(args : list attr)"},
 			result: "list attr", final: "kvps"},
+
+		// ---- path hardening (C18) ----
+		// None = the call panics (an index or slice out of range)
+		{pkg: slogPkg, recv: "", fn: "underDir", coq: "under_dir", file: "Paths", strict: true, fallback: "PathRef.under_dir_ref",
+			comment: "(None = the call panics)", panicT: "None", retfmt: "Some (%s)",
+			calls: map[string]callSpec{
+				"strings.HasPrefix":  {pure: "has_prefix %0 %1"},
+				"os.IsPathSeparator": {pure: "%0 =? 47"}, // unix: '/' only
+			},
+			params: []string{"(file dir : bytes)"}, result: "option bool", final: "None"},
+		// knownPathMap is ranged in the order of the table m_knownPathMap (the theorems quantify over its
+		// permutations); the regexps are abstract (rx_matches / rx_replace of Model/Path.v); os.Getwd and
+		// filepath.Rel are the parameters g_cwd and f_rel ("" = the error case, as in the code)
+		{pkg: slogPkg, recv: "", fn: "checkpath", coq: "checkpath", file: "Paths", strict: true, fallback: "PathRef.checkpath_ref",
+			comment: "(None = the call panics)", panicT: "None", retfmt: "Some (%s)",
+			tymap:  map[string]string{"regRepl": "rx", "*regexp.Regexp": "rx", "error": "unit"},
+			fields: map[string]string{"expr": "rx_expr", "repl": "rx_repl"}, globals: []string{"rx_expr", "rx_repl"},
+			calls: map[string]callSpec{
+				"IsAnyBitsSet":                    {pure: "negb (Z.land g_flags %0 =? 0)"},
+				"underDir":                        {pure: "under_dir %0 %1", partial: true},
+				"strings.HasPrefix":               {pure: "has_prefix %0 %1"},
+				"strings.IndexRune":               {pure: "str_index_byte %0 %1", check: asciiRuneArg},
+				"filepath.IsAbs":                  {pure: "is_abs %0"},
+				"*regexp.Regexp.MatchString":      {pure: "rx_matches %r %0"},
+				"*regexp.Regexp.ReplaceAllString": {pure: "rx_replace %r %0"},
+				"os.Getwd":                        {res: "(g_cwd, tt)"},
+				"filepath.Rel":                    {res: "(f_rel %0 %1, tt)"},
+			},
+			params: []string{"(f_rel : bytes -> bytes -> bytes)", "(g_flags : Z)", "(m_knownPathMap : list (bytes * bytes))",
+				"(g_knownPathRegexpMap : list rx)", "(g_cwd : bytes)", "(file : bytes)"},
+			result: "option bytes", final: "None"},
 	}
+}
+
+// asciiRuneArg: strings.IndexRune(s, r) is the index of the BYTE r only for a constant r < utf8.RuneSelf
+func asciiRuneArg(x *tr, c *ast.CallExpr) string {
+	if len(c.Args) == 2 {
+		if tv, ok := x.p.TypesInfo.Types[c.Args[1]]; ok && tv.Value != nil && tv.Value.Kind() == constant.Int {
+			if v, exact := constant.Int64Val(tv.Value); exact && v >= 0 && v < 128 {
+				return ""
+			}
+		}
+	}
+	return "IndexRune with a rune that is not an ASCII constant"
 }
 
 // Go types of the delivery functions -> Coq types; a LogWriter is a member of a list in LWs.*, and
@@ -215,6 +259,7 @@ var genFiles = [][2]string{
 	{"Routing", "Require Import Verif.Model.Base Verif.Model.Decision Verif.Model.GoSem Verif.Model.Writers Verif.Model.GenRef."},
 	{"Delivery", "Require Import Verif.Model.Base Verif.Model.Decision Verif.Model.GoSem Verif.Model.Writers Verif.Model.GenRef."},
 	{"Assembly", "Require Import Verif.Model.Base Verif.Model.Decision Verif.Model.GoSem Verif.Model.Attrs Verif.Model.Collect Verif.Model.CollectRef."},
+	{"Paths", "Require Import Verif.Model.Base Verif.Model.Decision Verif.Model.GoSem Verif.Model.Path Verif.Model.PathRef."},
 	{"LevelNames", "Require Import Verif.Model.Base Verif.Model.Decision Verif.Model.Dec Verif.Model.GoSem Verif.Model.LevelRef."},
 }
 
